@@ -123,7 +123,7 @@ def compare_ref(a: refisd.RefISD, b: refisd.RefISD):
       if x.ws_certain and y.ws_certain and x.text != y.text:
         return ("white-space", f"{path}: text {x.text!r} vs {y.text!r}")
       return None
-    if x.kind not in ("Br", "Region") and x.lang and x.lang != y.lang:
+    if x.kind != "Br" and x.lang != y.lang:
       return ("lang", f"{path}/{x.kind}#{x.id}: xml:lang {x.lang!r} vs {y.lang!r}")
     if x.kind != "Br":
       must, _ = refisd.APPLICABLE[x.kind]
